@@ -17,7 +17,10 @@ RULE = ("K: tiny closed periodic boxes (3..5 cells per axis, also non-cubic) bui
         "with the model's nyqStep. Independent oracles on the real code: zero-coefficient cells update exactly like the "
         "non-dispersive twin; P_curr' = c1 P + c2 P_prev + c3 E (+ c4 E'); a run whose poles all have zero strength "
         "equals the plain run; media near the coupled stability bound either draw a warning or keep the field energy "
-        "within 10x over 10^4 steps (random initial E). Every run starts with 3 directed scenes: a CCPR pole with complex "
+        "within 10x over 10^4 steps (random initial E). Multi-material scenes (two Spheres sharing one materials dict in shuffled / non-ascending order, "
+        "optionally a discrete Device): eps_inf and pole coefficients found in EVERY cell of the simulation arrays == C35-model "
+        "coefficients of the material owning the cell (painter rule), warning decision == model decision for every "
+        "(eps, coefficients) pairing present in the arrays, and the closed-box energy oracle. Every run starts with 3 directed scenes: a CCPR pole with complex "
         "residue present (c4 allocated) and conductive cells with eps != 1 inside and outside the dispersive region. non-trivial = scene with an inner block, >1 pole, c4, "
         "conductivity, per-axis poles or a near-bound medium.")
 
@@ -322,14 +325,11 @@ def nyquist_check(ctx, sc):
 
 
 # ------------------------------------------------------------------------ property: bounded energy
-def growth(scene, steps=10000, limit=1e3):
-    """max field energy / initial field energy over `steps` steps (early exit beyond `limit`), warnings"""
+def growth_run(oc, arrays, cfg, seed, steps=10000, limit=1e3):
+    """max field energy / initial field energy over `steps` steps of the real `forward` (early exit beyond `limit`)"""
     m = M()
     jnp, jax = m["jnp"], m["jax"]
-    oc, arrays, cfg, wl, mats = build(scene)
-    if wl:                      # not accepted silently: the property says nothing, no need to run
-        return 0.0, 0, wl
-    rng = np.random.default_rng(scene["seed"])
+    rng = np.random.default_rng(seed)
     arrays = arrays.aset("fields->E", jnp.asarray(rng.standard_normal(arrays.fields.E.shape)))
     key = jax.random.PRNGKey(0)
 
@@ -348,7 +348,16 @@ def growth(scene, steps=10000, limit=1e3):
     e0 = energy(arrays)
     st, e0, emax = jax.jit(lambda a: jax.lax.while_loop(cond, body, ((jnp.asarray(0, dtype=jnp.int32), a), e0, e0)))(arrays)
     g = float(emax / e0)
-    return (g if math.isfinite(g) else float("inf")), int(st[0]), wl
+    return (g if math.isfinite(g) else float("inf")), int(st[0])
+
+
+def growth(scene, steps=10000, limit=1e3):
+    """growth of a `build` scene; placements that warn are not stepped (the property says nothing about them)"""
+    oc, arrays, cfg, wl, mats = build(scene)
+    if wl:
+        return 0.0, 0, wl
+    g, n = growth_run(oc, arrays, cfg, scene["seed"], steps, limit)
+    return g, n, wl
 
 
 def medium_for_measure(rng, target, cf, eps, kind):
@@ -386,6 +395,167 @@ def bounded_fail(scene, steps=10000):
         return (f"medium accepted without error or warning, field energy grew {g:.3g}x within {n} steps "
                 f"(courant_factor {scene['cf']}, background {scene['bg']}, block {scene.get('block')})"), "silent"
     return None, "silent"
+
+
+# ------------------------------------------------------------- multi-material objects and devices
+MM_LIB = {          # parameters relative to dt; every medium is far inside its own bound, the strong ones are far
+    "au":   {"eps": 9.0, "poles": [{"kind": "dru", "wp": math.sqrt(8.0), "g": 0.05}]},          # outside it on eps ~ 2
+    "ag":   {"eps": 6.0, "poles": [{"kind": "dru", "wp": 2.0, "g": 0.02}, {"kind": "lor", "w": 0.8, "g": 0.1, "de": 2.0}]},
+    "si":   {"eps": 12.0, "poles": [{"kind": "lor", "w": 1.2, "g": 0.05, "de": 6.0}]},
+    "sio2": {"eps": 2.25, "poles": None},
+    "air":  {"eps": 1.0, "poles": None},
+    "poly": {"eps": 1.6, "poles": [{"kind": "lor", "w": 0.5, "g": 0.1, "de": 0.3}]},
+}
+
+
+def gen_multi(rng, i):
+    """two spheres sharing one materials dict (+ a discrete Device on odd i); dict order shuffled, and on i = 0 exactly
+    the order 'dispersive high-eps material first' that differs from the ascending-permittivity table order"""
+    names = [["au", "sio2"], ["sio2", "si", "air"], ["ag", "air", "au"], ["poly", "au", "sio2"], ["si", "air"]][i % 5]
+    order = list(names) if i == 0 else rng.shuffle(names)
+    if i != 0 and order == sorted(order, key=lambda n: MM_LIB[n]["eps"]):
+        order = order[::-1]
+    picks = [order[0], order[-1]]
+    sc = {"multi": True, "cf": rng.choice([0.99, rng.uniform(0.6, 0.95)]), "shape": [6, 6, 6], "seed": rng.randint(0, 999),
+          "order": order, "spheres": [{"pick": picks[0], "at": [0, 0, 0]}, {"pick": picks[1], "at": [3, 3, 3]}]}
+    if i % 2 == 1:
+        sc["device"] = {"order": order[::-1] if len(order) == 2 else order[:2][::-1], "at": [3, 0, 0], "size": [2, 2, 2],
+                        "bits": [rng.randint(0, 1) for _ in range(8)]}
+    return sc
+
+
+def build_multi(sc):
+    """place the scene; returns oc, arrays, cfg, warnings, owner (name per cell, object array), eps per name"""
+    m = M()
+    f, jnp, jax = m["fdtdx"], m["jnp"], m["jax"]
+    res = 50e-9
+    cfg = f.SimulationConfig(time=100e-15, grid=f.UniformGrid(spacing=res), backend="cpu", dtype=jnp.float64,
+                             courant_factor=sc["cf"], gradient_config=None)
+    dt = cfg.time_step_duration
+    mats = {n: make_material(MM_LIB[n], dt) for n in MM_LIB}
+    vol = f.SimulationVolume(partial_grid_shape=tuple(sc["shape"]), name="vol")
+    objs, cons = [vol], []
+    shared = {n: mats[n] for n in sc["order"]}
+    for k, sp in enumerate(sc["spheres"]):
+        o = f.Sphere(name=f"s{k}", materials=shared, material_name=sp["pick"], radius=1.5 * res)
+        cons.append(o.set_grid_coordinates(axes=(0, 1, 2), sides=("-", "-", "-"), coordinates=tuple(sp["at"])))
+        objs.append(o)
+    if sc.get("device"):
+        d = sc["device"]
+        dev = f.Device(name="dev", partial_grid_shape=tuple(d["size"]), partial_voxel_grid_shape=(1, 1, 1),
+                       materials={n: mats[n] for n in d["order"]}, param_transforms=[f.ClosestIndex()])
+        cons.append(dev.set_grid_coordinates(axes=(0, 1, 2), sides=("-", "-", "-"), coordinates=tuple(d["at"])))
+        objs.append(dev)
+    bd, bcons = f.boundary_objects_from_config(f.BoundaryConfig.from_uniform_bound(boundary_type="periodic"), vol)
+    objs += list(bd.values())
+    cons += list(bcons)
+    key = jax.random.PRNGKey(0)
+    with warnings.catch_warnings(record=True) as w:
+        warnings.simplefilter("always")
+        oc, arrays, params, cfg, _ = f.place_objects(object_list=objs, config=cfg, constraints=cons, key=key)
+        if sc.get("device"):
+            bits = np.asarray(sc["device"]["bits"], dtype=np.float64).reshape(sc["device"]["size"])
+            params = {name: (jnp.asarray(bits) if not isinstance(p, dict) else {k2: jnp.asarray(bits) for k2 in p})
+                      for name, p in params.items()}
+            arrays, oc, _ = f.apply_params(arrays, oc, params, key)
+    # owner of every cell, by the documented painter rule (later objects overwrite inside their mask)
+    owner = np.full(tuple(sc["shape"]), "bg", dtype=object)
+    for o in oc.objects:
+        if o.name.startswith("s") and o.name[1:].isdigit():
+            mask = np.asarray(o.get_voxel_mask_for_shape()).astype(bool)
+            sl = tuple(slice(a, b) for a, b in o.grid_slice_tuple)
+            sub = owner[sl]
+            sub[mask] = sc["spheres"][int(o.name[1:])]["pick"]
+            owner[sl] = sub
+        if o.name == "dev":
+            d = sc["device"]
+            asc = sorted(d["order"], key=lambda n: MM_LIB[n]["eps"])      # index 0/1 = ascending permittivity
+            sl = tuple(slice(a, b) for a, b in o.grid_slice_tuple)
+            bits = np.asarray(d["bits"]).reshape(d["size"])
+            sub = owner[sl]
+            for ix in np.ndindex(*bits.shape):
+                sub[ix] = asc[int(bits[ix])]
+            owner[sl] = sub
+    return oc, arrays, cfg, [str(x.message) for x in w], owner, dt
+
+
+def model_coefs_for(ctx, spec, dt):
+    """coefficients (c1,c2,c3,c4) of every pole of a material spec from the C35 model (isotropic poles)"""
+    from .common import Driver, f2h, h2fs
+    lines = []
+    for p in spec["poles"] or []:
+        if p["kind"] == "dru":
+            lines.append("dru " + " ".join(f2h(x) for x in (p["wp"] / dt, p["g"] / dt, dt)))
+        else:
+            lines.append("lor " + " ".join(f2h(x) for x in (p["w"] / dt, p["g"] / dt, p["de"], dt)))
+    if not lines:
+        return []
+    d35 = Driver("C35")
+    reps = d35.ask_many(lines)
+    ctx.driver.n += len(lines)
+    return [h2fs(r) for r in reps]
+
+
+def multi_check(ctx, sc, run_energy=True):
+    """(a) coefficients and eps_inf placed in every cell == model coefficients of the material that owns the cell,
+    warning decision == model decision for every (eps, coefficients) pairing actually present in the arrays;
+    (b) accepted silently -> field energy within 10x for 1e4 steps.  Returns a property-violation detail or None."""
+    from .common import f2h
+    oc, arrays, cfg, wl, owner, dt = build_multi(sc)
+    if arrays.dispersive_c1 is None:
+        ctx.mismatch("multi-no-dispersive-arrays", sc, {})
+        return None
+    c = [np.asarray(a) for a in (arrays.dispersive_c1, arrays.dispersive_c2, arrays.dispersive_c3)]
+    c.append(np.asarray(arrays.dispersive_c4) if arrays.dispersive_c4 is not None else np.zeros_like(c[2]))
+    npole = c[0].shape[0]
+    inv_eps = np.asarray(arrays.inv_permittivities)
+    names = sorted(set(owner.ravel()))
+    table = {"bg": ({"eps": 1.0, "poles": None}, [])}
+    for n in names:
+        if n != "bg":
+            table[n] = (MM_LIB[n], model_coefs_for(ctx, MM_LIB[n], dt))
+    viol = None
+    worst = 0.0
+    for ix in np.ndindex(*owner.shape):
+        spec, mc = table[owner[ix]]
+        exp = np.zeros((npole, 4))
+        for p, row in enumerate(mc):
+            exp[p] = row
+        got = np.array([[c[k][(p, 0) + ix] for k in range(4)] for p in range(npole)])
+        err = float(np.max(np.abs(got - exp) / np.maximum(np.abs(exp), 1.0)))
+        eerr = abs(float(inv_eps[(0,) + ix]) * spec["eps"] - 1.0)
+        if max(err, eerr) > worst:
+            worst = max(err, eerr)
+            if worst > 1e-9 and viol is None:
+                viol = (f"cell {tuple(int(v) for v in ix)} belongs to material '{owner[ix]}' (eps_inf {spec['eps']}, "
+                        f"{len(mc)} poles) but the simulation arrays hold coefficients {got.tolist()} and 1/eps {float(inv_eps[(0,) + ix]):.6g}; "
+                        f"expected {exp.tolist()} (materials dict order {sc['order']})")
+    if worst > 1e-9:
+        ctx.mismatch("multi-cell-coefficients", sc, {"worst": worst})
+    # decision for every (eps, coefficients) pairing that is actually present
+    classes = {}
+    for ix in np.ndindex(*owner.shape):
+        key = (round(1.0 / float(inv_eps[(0,) + ix]), 9),) + tuple(float(c[k][(p, 0) + ix]) for p in range(npole) for k in range(4))
+        classes.setdefault(key, ix)
+    lines = []
+    for key in classes:
+        parts = [f2h(sc["cf"]), f2h(key[0]), f2h(1.0), f2h(0.01)]
+        for p in range(npole):
+            parts += [f2h(x) for x in key[1 + 4 * p: 5 + 4 * p]] + [f2h(0.0), f2h(0.0)]
+        lines.append("warns " + " ".join(parts))
+    reps = ctx.driver.ask_many(lines)
+    model_warns = any(r == "1" for r in reps)
+    real_warns = coupled_warned(wl)
+    ctx.expect_equal("multi-warn-decision", {"scene": sc, "classes": len(classes)}, real_warns, model_warns)
+    if run_energy and not wl:
+        ctx.impl_property_evals += 1
+        g, n = growth_run(oc, arrays, cfg, sc["seed"])
+        if g > 10.0 and viol is None:
+            viol = (f"multi-material scene accepted without error or warning, field energy grew {g:.3g}x within {n} steps "
+                    f"(courant_factor {sc['cf']}, materials dict order {sc['order']}, spheres {sc['spheres']}, device {sc.get('device')})")
+        elif g > 10.0:
+            viol += f"; accepted without error or warning, field energy grew {g:.3g}x within {n} steps"
+    return viol
 
 
 # ------------------------------------------------------------------------------------------- gen
@@ -477,6 +647,13 @@ def run(ctx):
                  op="cellStep", tier=sc["tier"], layout=sc["layout"], shape="x".join(map(str, sc["shape"])))
         if d:
             ctx.violation({"kind": "scene", "scene": sc}, d)
+    # multi-material objects / devices: placed coefficients per cell, warning decision, closed-box energy
+    for i in range(ctx.scale(2, 10)):
+        sc = gen_multi(ctx.rng, i)
+        d = multi_check(ctx, sc, run_energy=True)
+        ctx.case(nontrivial=("multi", i, tuple(sc["order"])), op="multi-material", layout="device" if sc.get("device") else "spheres")
+        if d:
+            ctx.violation({"kind": "multi", "scene": sc}, d)
     # zero-strength poles: whole run equals the plain run
     for i in range(ctx.scale(2, 10)):
         sc = {"cf": ctx.rng.uniform(0.4, 0.99), "shape": ctx.rng.choice([[3, 3, 3], [4, 3, 5]]), "seed": ctx.rng.randint(0, 999),
@@ -537,6 +714,13 @@ def replay(ctx, inp):
         return bounded_fail(inp["scene"])[0]
     if k == "zero-strength":
         return zero_strength_fail(inp["scene"])
+    if k == "multi":
+        sub = type(ctx)(ctx.pid, ctx.tier, ctx.seed)
+        sub.driver = ctx.driver
+        try:
+            return multi_check(sub, inp["scene"])
+        except Exception as e:
+            return f"{type(e).__name__}: {e}"
     if k == "scene":
         sub = type(ctx)(ctx.pid, ctx.tier, ctx.seed)
         sub.driver = ctx.driver
@@ -556,6 +740,13 @@ def search(ctx, hints):
                 ctx.violation({"kind": "scene", "scene": sc}, d)
                 return
     rng = ctx.rng.fork()
+    for i in range(5):
+        sc = gen_multi(rng, i)
+        ctx.impl_property_evals += 1
+        d = replay(ctx, {"kind": "multi", "scene": sc})
+        if d:
+            ctx.violation({"kind": "multi", "scene": sc}, d)
+            return
     # first clause, directed: conductive zero-coefficient cells next to conductive dispersive ones, every tier
     for i, tier in enumerate(["c4", "iso", "axes", "c4", "iso", "axes"]):
         disp = gen_material(rng, tier, True)
